@@ -374,3 +374,28 @@ pub(crate) fn construct_reset_key(private_key: &[u8; 32]) -> ring::hmac::Key {
 
     ring::hmac::Key::new(ring::hmac::HMAC_SHA256, &reset_key)
 }
+
+/// Verification hooks: the certificate verifiers as trait objects.
+#[cfg(bmwill_anemo_verif)]
+pub mod verif {
+    use super::*;
+
+    pub fn client_cert_verifier(server_names: Vec<String>) -> Arc<dyn ClientCertVerifier> {
+        Arc::new(CertVerifier { server_names })
+    }
+
+    pub fn server_cert_verifier(server_names: Vec<String>) -> Arc<dyn ServerCertVerifier> {
+        Arc::new(CertVerifier { server_names })
+    }
+
+    pub fn expected_server_cert_verifier(
+        server_names: Vec<String>,
+        peer_id: PeerId,
+    ) -> Arc<dyn ServerCertVerifier> {
+        Arc::new(ExpectedCertVerifier(CertVerifier { server_names }, peer_id))
+    }
+
+    pub fn peer_id_from_certificate(certificate: &CertificateDer) -> Result<PeerId, rustls::Error> {
+        super::peer_id_from_certificate(certificate)
+    }
+}
